@@ -7,11 +7,23 @@
 (b) formerly carved-out forms, now ordinary members of the clause (repaired in the fix round):
     list literals `[a,b]` / `[a]` / `[]`, repeated keywords (SyntaxError as in Python), blanks
     after keyword values; and junk text (error kinds / accepted junk, tie only).
-(c) str direction over the C09 option lattice: str(q) vs model print (string equality),
-    get_quantizer(str(q)) vs the model's verdict and rebuilt fields, and the clause oracle:
-    no exception, identical outputs / scale / gradients on probe tensors.
+(c) str direction over the C09 option lattice EXTENDED per class with the case splits of the
+    printing code (strengthening round, seed C10-3): for every option the constructor defaults
+    of the OTHER classes with an option of that name, every constant the model's `__str__` tables
+    and the live source of quantizers.py compare an option of that name with, and the
+    falsy-but-legal values (0, 0.0, False), each under every context of the class.
+    str(q) vs model print (string equality), get_quantizer(str(q)) vs the model's verdict and
+    rebuilt fields, and the clause oracle "denotes the same function":
+      str_same_options  — the COMPLETE option set of the rebuilt quantizer (every constructor
+                          argument read back from the object, and every get_config() entry) is
+                          Python-`==` the original's; an omitted option that silently falls back
+                          to another value is a violation by itself;
+      str_same_output / str_same_gradient — no exception, identical outputs / scale / gradients
+                          on probe tensors, in the training phase too, there also with
+                          tf.random.uniform patched to fixed draws (a grid of levels).
 """
 import ast
+import inspect
 import keyword
 import re
 
@@ -204,6 +216,262 @@ def same_reading(a, b):
   return a["args"] == b["args"] and sorted(a["kwargs"]) == sorted(b["kwargs"])
 
 
+# --------------------------------------------------------------------------- option lattice (C10)
+
+NOT_SWEPT = {"var_name", "use_variables", "post_training_scale"}   # not literals / no effect
+NO_ZERO = {"bits", "alpha", "elements_per_scale"}   # 0 is not a legal value of these options
+
+
+def harvest_source_constants(module):
+  """every literal the live source of `module` compares an attribute with (`self.x != 6.0`,
+  `quantizer.temperature != 6.0`, `0 == self.y`, ...): {attribute name: [values]}"""
+  out = {}
+  try:
+    tree = ast.parse(inspect.getsource(module))
+  except (OSError, TypeError, SyntaxError):
+    return out
+
+  def const(n):
+    if isinstance(n, ast.Constant) and isinstance(n.value, (int, float, str, bool, type(None))):
+      return True, n.value
+    if isinstance(n, ast.UnaryOp) and isinstance(n.op, ast.USub) and isinstance(n.operand, ast.Constant) \
+        and isinstance(n.operand.value, (int, float)) and not isinstance(n.operand.value, bool):
+      return True, -n.operand.value
+    return False, None
+
+  for node in ast.walk(tree):
+    if isinstance(node, ast.Compare) and len(node.comparators) == 1:
+      l, r = node.left, node.comparators[0]
+      for a, b in ((l, r), (r, l)):
+        if isinstance(a, ast.Attribute):
+          ok, v = const(b)
+          if ok:
+            out.setdefault(a.attr, [])
+            if not any(type(v) is type(w) and v == w for w in out[a.attr]):
+              out[a.attr].append(v)
+  return out
+
+
+def live_defaults(reg):
+  """constructor defaults of the live classes: {class: {parameter: default}}"""
+  out = {}
+  for n, c in reg.items():
+    ps = list(inspect.signature(c.__init__).parameters.values())[1:]
+    out[n] = {p.name: p.default for p in ps if p.default is not inspect.Parameter.empty}
+  return out
+
+
+def _same(v, w):
+  return type(v) is type(w) and v == w
+
+
+def extra_option_values(name, defaults, harvested, anchors):
+  """per option of class `name`: the values at which printing code SHARED with other classes (or
+  written with their constants) would split — defaults of the other classes for an option of
+  that name, constants of the model's statement tables and of the live source for that name,
+  and the falsy-but-legal values.  Returns {option: [(value, origin)]}."""
+  own = defaults[name]
+  known = L.LATTICE[name]["options"]
+  out = {}
+
+  def add(o, v, origin):
+    if isinstance(v, float) and v != v:
+      return
+    if _same(v, own.get(o)):
+      return
+    lst = out.setdefault(o, [])
+    if any(_same(v, w) for w, _ in lst) or any(_same(v, w) for w in known.get(o, []) if not isinstance(w, (list, np.ndarray))):
+      return
+    lst.append((v, origin))
+
+  for o in own:
+    if o in NOT_SWEPT:
+      continue
+    # (1) defaults of the other classes
+    for other, d in defaults.items():
+      if other != name and o in d and not isinstance(d[o], (list, np.ndarray)):
+        add(o, d[o], "default-of-" + other)
+    # (2) constants of the model's statement tables (any class) for this option name
+    for v in anchors.get(o, []):
+      add(o, v, "model-table-constant")
+    # (3) constants the live source compares an attribute of that name with
+    for v in harvested.get(o, []):
+      if isinstance(v, str) and not isinstance(own[o], str) and not any(isinstance(w, str) for w in known.get(o, [])):
+        continue
+      add(o, v, "source-constant")   # kept only if the constructor and the call accept it
+    # (4) falsy-but-legal
+    if o in NO_ZERO or o == "qnoise_factor":
+      continue
+    kinds = [own[o]] + [w for w in known.get(o, []) if not isinstance(w, (list, np.ndarray))]
+    if any(isinstance(w, bool) for w in kinds):
+      add(o, False, "falsy")
+      add(o, True, "truthy")
+    elif any(isinstance(w, float) for w in kinds):
+      add(o, 0.0, "falsy")
+    elif any(isinstance(w, int) for w in kinds):
+      add(o, 0, "falsy")
+  return out
+
+
+def legal(cls, kw, x):
+  """the constructor accepts the options and the quantizer maps the probe to finite numbers"""
+  try:
+    q = cls(**kw)
+    y = q(x)
+    y = np.asarray(y.numpy() if hasattr(y, "numpy") else y, np.float32)
+    return bool(np.all(np.isfinite(y)))
+  except Exception:  # pylint: disable=broad-except
+    return False
+
+
+def c10_configs(name, tier, rng, cls, extras, x_legal):
+  """the C09 lattice of the class (unchanged, same order), then every extra option value under
+  every context of the class, then the extra values of two options together"""
+  out = list(L.configs(name, tier, rng))
+  seen = {L._key(kw) for _, kw in out}   # pylint: disable=protected-access
+  lat = L.LATTICE[name]
+
+  def add(kw, kind):
+    k = L._key(kw)   # pylint: disable=protected-access
+    if k in seen:
+      return
+    seen.add(k)
+    if legal(cls, kw, x_legal):
+      out.append((kind, dict(kw)))
+
+  singles = []
+  for o, vals in extras.items():
+    for v, origin in vals:
+      singles.append((o, v))
+      for ctx in lat["contexts"]:
+        if o in ctx:
+          continue
+        kw = dict(ctx)
+        kw[o] = v
+        add(kw, "cross")
+  # two cross values together (printing code that shares ONE helper for several options)
+  for i, (o1, v1) in enumerate(singles):
+    for o2, v2 in singles[i + 1:]:
+      if o1 != o2:
+        for ctx in lat["contexts"][:2]:
+          if o1 in ctx or o2 in ctx:
+            continue
+          kw = dict(ctx)
+          kw[o1] = v1
+          kw[o2] = v2
+          add(kw, "cross2")
+  return out
+
+
+# --------------------------------------------------------------------------- fixed random draws
+
+PHI = 0.6180339887498949
+
+
+class FixedDraws:
+  """stand-in for tf.random.uniform (cf. harness/qkv/props/c08.py): element k of the n-th draw of
+  a call is frac(level + k*phi + 0.37*n), a multiple of 2^-23 in [0,1) — the same tensor for the
+  original and the rebuilt quantizer, so that equal options give bit-identical samples and a
+  changed sampling probability moves at least the elements whose draw lies in between."""
+
+  def __init__(self, tf):
+    self.tf = tf
+    self.level = 0.5
+    self.calls = 0
+    self.mods = []
+
+  def install(self, mods):
+    for m in mods:
+      self.mods.append((m, m.uniform))
+      m.uniform = self.fake
+    return self
+
+  def uninstall(self):
+    for m, orig in self.mods:
+      m.uniform = orig
+    self.mods = []
+
+  def fake(self, shape, minval=0, maxval=None, dtype=None, seed=None, name=None):  # pylint: disable=unused-argument
+    tf = self.tf
+    shp = [int(d) for d in np.asarray(shape).reshape(-1)]
+    n = int(np.prod(shp)) if shp else 1
+    u = (self.level + np.arange(n) * PHI + 0.37 * self.calls) % 1.0
+    u = np.minimum(np.floor(u * 2.0 ** 23) / 2.0 ** 23, 1.0 - 2.0 ** -23).astype(np.float32)
+    self.calls += 1
+    u = tf.reshape(tf.constant(u), shp)
+    if maxval is None and isinstance(minval, (int, float)) and minval == 0:
+      return u
+    if maxval is None:
+      maxval = 1.0
+    return u * (maxval - minval) + minval
+
+
+def observe_training(q, xs, draws, levels):
+  """training-phase outputs and scale under the fixed draws, one observation per level"""
+  import tensorflow as tf
+  import tensorflow.keras.backend as K
+  obs = {}
+  K.set_learning_phase(1)
+  try:
+    for i, x in enumerate(xs):
+      for lv in levels:
+        draws.level = lv
+        draws.calls = 0
+        key = "%d_%g" % (i, lv)
+        try:
+          y = q(tf.constant(x))
+          obs["y1f" + key] = np.asarray(y.numpy() if hasattr(y, "numpy") else y, np.float32).tobytes()
+          sc = getattr(q, "scale", None)
+          if sc is not None:
+            sc = np.asarray(K.eval(sc) if hasattr(sc, "numpy") or tf.is_tensor(sc) else sc, np.float32)
+            obs["s1f" + key] = (sc.shape, sc.tobytes())
+          else:
+            obs["s1f" + key] = None
+        except Exception as e:  # pylint: disable=broad-except
+          obs["y1f" + key] = ("raises", L.err_tag(e))
+  finally:
+    K.set_learning_phase(0)
+  return obs
+
+
+# --------------------------------------------------------------------------- complete option set
+
+def _py(v):
+  """decoded protocol value; numbers compare exactly, across bool / int / float as Python does"""
+  try:
+    return L.dec(v)
+  except Exception:  # pylint: disable=broad-except
+    return v
+
+
+def _enc_any(v):
+  try:
+    return L.enc(v)
+  except Exception:  # pylint: disable=broad-except
+    return {"s": "<%s>" % type(v).__name__}
+
+
+def options_diff(q, q2, a0, a2, pnames):
+  """fields of the complete option set in which the rebuilt quantizer is not Python-`==` the
+  original: every constructor argument read back from the objects, every get_config() entry"""
+  bad = {}
+  for n in pnames:
+    if not _py(a0[n]) == _py(a2[n]):
+      bad[n] = {"original": a0[n], "rebuilt": a2[n], "read_from": "attribute"}
+  try:
+    c1, c2 = q.get_config(), q2.get_config()
+  except Exception:  # pylint: disable=broad-except
+    return bad
+  for k in sorted(set(c1) | set(c2)):
+    if k in bad:
+      continue
+    e1 = _enc_any(c1[k]) if k in c1 else {"s": "<absent>"}
+    e2 = _enc_any(c2[k]) if k in c2 else {"s": "<absent>"}
+    if not _py(e1) == _py(e2):
+      bad[k] = {"original": e1, "rebuilt": e2, "read_from": "get_config"}
+  return bad
+
+
 # --------------------------------------------------------------------------- the check
 
 def run(run: core.Run, tier: str):
@@ -217,8 +485,13 @@ def run(run: core.Run, tier: str):
       "with optional exponent, quoted strings over a 90-symbol alphabet incl. 'True'/'None'/'1.5' "
       "as string contents, lists of 0-4 numbers) x 4 whitespace layouts (the 4th with blanks after "
       "keyword values); fixed list / repeated-keyword forms and junk text as separate streams; "
-      "str direction: the C09 option lattice (qkv.qlattice). non-trivial = distinct text / "
-      "distinct (class, keyword set)")
+      "str direction: the C09 option lattice (qkv.qlattice) plus, per class and option, under every "
+      "context of the class: the constructor defaults of the other classes for an option of that name "
+      "(temperature 6.0 / 8.0, relu_upper_bound None / 6, negative_slope 0 / 0.0, symmetric 0 / 1 / False), "
+      "the constants of the model's __str__ tables and the literals the live source of quantizers.py "
+      "compares an attribute of that name with, the falsy-but-legal values 0 / 0.0 / False, and pairs of "
+      "those values (kept when the constructor accepts them and the probe maps to finite numbers). "
+      "non-trivial = distinct text / distinct (class, keyword set)")
   run.assumptions.append(
       "pyparsing's matching of the GetParams grammar is modelled by comma segments up to the "
       "first ')' outside a bracketed number list (tied on generated and malformed text); "
@@ -354,17 +627,42 @@ def run(run: core.Run, tier: str):
       run.disagree("parse.junk", {"text": s}, impl, model)
 
   # ------------------------------------------------------------------ (c) str direction
+  import tensorflow as tf
   xs_all = L.probes(rng)
   xs = xs_all if tier != "quick" else [xs_all[0], xs_all[2]]
+  # the case splits of the printing code: the model's statement tables, the live signatures, the
+  # literals the live source compares options with
+  anchors_raw = core.run_driver("C10", [{"op": "anchors"}])[0]["classes"]
+  anchors = {}
+  for c in anchors_raw:
+    for r in c["rows"]:
+      if r["cond"] == "ne":
+        v = L.dec(r["const"])
+        if not any(_same(v, w) for w in anchors.setdefault(r["name"], [])):
+          anchors[r["name"]].append(v)
+      if not r["anchored"]:
+        run.disagree("model.anchored", {"class": c["cls"], "row": r}, "n/a", "statement not anchored at the class default")
+  unprinted = {c["cls"]: c["unprinted"] for c in anchors_raw}
+  defaults = live_defaults(reg)
+  harvested = harvest_source_constants(Q)
+  run.extra["source_constants_harvested"] = {k: [repr(v) for v in vs] for k, vs in sorted(harvested.items())
+                                             if any(k in d for d in defaults.values())}
+  draws = FixedDraws(tf)
+  rmods = [Q.tf.random] + ([tf.random] if tf.random is not Q.tf.random else [])
+  levels_full = [(k + 0.5) / 8.0 for k in range(8)]
   slines, srecs = [], []
   for name in names:
     cls = reg.get(name)
     if cls is None:
       continue
     pnames = [p[0] for p in model_cls[name]["params"]]
-    for kind, kw in L.configs(name, tier, rng):
+    extras = extra_option_values(name, defaults, harvested, anchors)
+    run.extra.setdefault("cross_values", {})[name] = {o: ["%r (%s)" % (v, why) for v, why in vs]
+                                                      for o, vs in sorted(extras.items())}
+    for kind, kw in c10_configs(name, tier, rng, cls, extras, tf.constant(xs_all[0])):
       if "post_training_scale" in kw:
         continue
+      run.count("lattice_" + kind)
       rec = {"class": name, "kw": kw, "kind": kind}
       try:
         q = cls(**kw)
@@ -391,12 +689,34 @@ def run(run: core.Run, tier: str):
       stochastic = name in STOCHASTIC or bool(kw.get("use_stochastic_rounding")) or \
           bool(a2.get("use_stochastic_rounding"))
       phases = (0, 1) if stochastic else (0,)
-      o0 = L.observe(q, xs, phases)
-      rec["call_raises"] = any(isinstance(v, tuple) and v and v[0] == "raises" for v in o0.values())
-      kinds = L.obs_diff(o0, L.observe(q2, xs, phases))
+      # (a) the complete option set, read back from the two objects
+      rec["opt_diff"] = options_diff(q, q2, a0, a2, pnames)
+      rec["options"] = {n: a0[n] for n in pnames}
+      rec["rebuilt_options"] = {n: a2[n] for n in pnames}
+      # (b) behaviour; stochastic classes also in the training phase under fixed draws
+      levels = () if not stochastic else (levels_full if name in STOCHASTIC else levels_full[1::4])
+
+      def watch(qq):
+        o = L.observe(qq, xs, phases)
+        if levels:
+          draws.install(rmods)
+          try:
+            o.update(observe_training(qq, xs, draws, levels))
+          finally:
+            draws.uninstall()
+        return o
+      o0 = watch(q)
+      rec["call_raises"] = any(isinstance(v, tuple) and v and v[0] == "raises" for k, v in o0.items()
+                               if not k.startswith("y1"))
+      o2 = watch(q2)
+      kinds = L.obs_diff(o0, o2)
+      # which observations differ: y/s/g + phase (+ 'f' = fixed draws) + probe index (+ draw level)
+      rec["obs_differing"] = sorted(k for k in o0 if o0[k] != o2.get(k))[:8]
       diff = [n for n in pnames if a0[n] != a2[n]]
       rec["diff_fields"] = diff
       rec["kinds"] = sorted(kinds)
+      if levels:
+        run.count("training_fixed_draws_observed")
       if kinds and len(diff) > 1:
         culprits = []
         for f in diff:
@@ -406,7 +726,7 @@ def run(run: core.Run, tier: str):
               kw3[g] = L.dec(a0[g])
           try:
             q3 = cls(**kw3)
-            if L.obs_diff(o0, L.observe(q3, xs, phases)):
+            if L.obs_diff(o0, watch(q3)):
               culprits.append(f)
           except Exception:  # pylint: disable=broad-except
             culprits.append(f)
@@ -447,6 +767,21 @@ def run(run: core.Run, tier: str):
                   {"kw": line["kw"], "str": rec["str"]["ok"], "options": opts,
                    "replay": "get_quantizer(str(%s(**kw)))" % name}, mirrored=mirrored)
       continue
+    # clause (a): every option of the rebuilt quantizer == the original's (one violation per field)
+    opt_diff = rec.get("opt_diff", {})
+    m_diff = set(o.get("diff_eq") or [])
+    for f, d in sorted(opt_diff.items()):
+      run.count("str_option_differs_%s.%s" % (name, f))
+      run.violate("str_same_options", {"class": name, "field": f, "falsy_original": not _py(d["original"])},
+                  {"class": name, "kw": line["kw"], "options": rec["options"], "str": rec["str"]["ok"],
+                   "rebuilt_options": rec["rebuilt_options"], "field": f, "original": d["original"],
+                   "rebuilt": d["rebuilt"], "read_from": d["read_from"],
+                   "model_expects_difference": f in m_diff,
+                   "unprintable_option": f in unprinted.get(name, []),
+                   "replay": "q=%s(**kw); q2=get_quantizer(str(q)); q2.%s vs q.%s" % (name, f, f)},
+                  mirrored=mirrored and (f in m_diff or d["read_from"] == "get_config"))
+    if not opt_diff:
+      run.count("str_options_all_equal")
     kinds = set(rec.get("kinds", []))
     if rec.get("call_raises"):
       kinds = set()
@@ -454,14 +789,19 @@ def run(run: core.Run, tier: str):
       clause = "str_same_output" if kinds & {"output", "scale"} else "str_same_gradient"
       for f in rec["culprits"]:
         run.count("str_differs_%s.%s" % (name, f))
-        run.violate(clause, {"class": name, "field": f},
-                    {"kw": line["kw"], "str": rec["str"]["ok"], "differs": sorted(kinds),
+        run.violate(clause, {"class": name, "field": f,
+                             "falsy_original": f in rec["options"] and not _py(rec["options"][f])},
+                    {"class": name, "kw": line["kw"], "options": rec["options"], "str": rec["str"]["ok"],
+                     "rebuilt_options": rec["rebuilt_options"], "differs": sorted(kinds),
+                     "observations_differing": rec.get("obs_differing"),
                      "fields_changed": rec["diff_fields"],
                      "replay": "q=%s(**kw); get_quantizer(str(q))(x) vs q(x)" % name},
                     mirrored=mirrored)
-    elif rec.get("diff_fields"):
+    elif opt_diff:
       n_unobserved += 1
-      run.count("str_field_changed_but_no_observable_difference")
+      run.count("str_option_changed_but_no_observable_difference")
+    elif rec.get("diff_fields"):
+      run.count("str_option_retyped_only")    # True -> 1 and the like: Python-== values
     else:
       run.count("str_roundtrip_exact")
-  run.extra["str_fields_changed_without_observable_difference"] = n_unobserved
+  run.extra["str_options_changed_without_observable_difference"] = n_unobserved
